@@ -368,8 +368,9 @@ async def e2e_seg(ctx, rng, mode, rekey):
                 i += n
             return out
         wire.filter = filt
-    kw = {'rekey_bytes': 6000} if rekey == 'server' else {}
-    ckw = {'rekey_bytes': 6000} if rekey == 'client' else {}
+    rk = rng.choice([1000, 6000])
+    kw = {'rekey_bytes': rk} if rekey == 'server' else {}
+    ckw = {'rekey_bytes': rk} if rekey == 'client' else {}
     tun, wire, acc, conn = await memwire.connected_pair(Srv, srv_kw=dict(kw, encoding=None), cli_kw=ckw, on_wire=on_wire)
     try:
         chan, sess = await conn.create_session(CS, encoding=None)
@@ -381,6 +382,13 @@ async def e2e_seg(ctx, rng, mode, rekey):
                 if wire.pend[side] and rng.random() < p:
                     d, wire.pend[side] = wire.pend[side], b''
                     wire._deliver_bytes(side, d)
+        if rekey:
+            # a burst of many packets written in one go: most of them are deferred by the exchange the first ones
+            # start, and flushing that backlog crosses the limit again (payloads must still arrive once, in order)
+            for i in range(60):
+                blob = bytes((i * 11 + j) % 251 for j in range(rng.choice([200, 300, 700])))
+                chan.write(blob)
+                sent += blob
         for i in range(12):
             blob = bytes((i * 7 + j) % 251 for j in range(rng.choice([1, 100, 3000, 9000])))
             chan.write(blob)
@@ -583,6 +591,53 @@ def stage_kshape(ctx):
 
 
 # ------------------------------------------------------------------------------------------------
+# stage: AES-GCM invocation counter (RFC 5647 7.1: 4-byte fixed field || 8-byte counter incremented mod 2^64)
+
+def stage_gcm_iv(ctx):
+    import struct as _st
+    from cryptography.hazmat.primitives.ciphers.aead import AESGCM
+    from asyncssh.encryption import get_encryption
+    rng = ctx.rng
+    n = 0
+    for alg, klen in ((b'aes128-gcm@openssh.com', 16), (b'aes256-gcm@openssh.com', 32)):
+        for ctr0 in (0, 1, 2 ** 32 - 1, 2 ** 32, 2 ** 63, 2 ** 64 - 3, 2 ** 64 - 2, 2 ** 64 - 1, rng.getrandbits(64)):
+            key = bytes(rng.getrandbits(8) for _ in range(klen))
+            fixed = bytes(rng.getrandbits(8) for _ in range(4))
+            iv = fixed + _st.pack('>Q', ctr0)
+            try:
+                enc = get_encryption(alg, key, iv)
+                dec = get_encryption(alg, key, iv)
+            except Exception as e:
+                ctx.broke('tie:get_encryption', repr(e))
+                return
+            ref = AESGCM(key)
+            for i in range(4):
+                body = bytes(rng.getrandbits(8) for _ in range(16 * rng.randint(1, 4)))
+                hdr = _st.pack('>I', len(body))
+                nonce = fixed + _st.pack('>Q', (ctr0 + i) % 2 ** 64)
+                want = ref.encrypt(nonce, body, hdr)
+                got_ct, got_tag = enc.encrypt_packet(i, hdr, body)
+                wire = bytes(got_ct) + bytes(got_tag)
+                n += 1
+                ctx.note_case(('gcm_iv', alg, ctr0, i), nontrivial=ctr0 + i >= 2 ** 64 - 1)
+                if wire != hdr + want:
+                    ctx.failing_input(
+                        f'{alg.decode()} packet {i} after an IV with invocation counter {ctr0:#x}: the bytes asyncssh emits '
+                        f'differ from RFC 5647 (counter incremented mod 2^64, fixed field untouched)',
+                        {'kind': 'gcm_iv', 'alg': alg.decode(), 'ctr0': ctr0, 'packet': i})
+                    break
+                back = dec.decrypt_packet(i, hdr, want[:-16], 4, want[-16:])
+                if back is None or bytes(back) != body:
+                    ctx.failing_input(
+                        f'{alg.decode()} packet {i} after an IV with invocation counter {ctr0:#x}: asyncssh rejects / '
+                        f'garbles the RFC 5647 encoding of the packet', {'kind': 'gcm_iv', 'alg': alg.decode(), 'ctr0': ctr0,
+                                                                          'packet': i, 'direction': 'decrypt'})
+                    break
+    ctx.cov['oracle']['gcm_iv_packets'] = n
+    ctx.count('gcm_iv.packets', n)
+
+
+# ------------------------------------------------------------------------------------------------
 # stage: different algorithms in the two directions (RFC 4253 7.1 negotiates each direction on its own)
 
 def stage_asym(ctx):
@@ -695,7 +750,7 @@ def run(ctx):
                        'generated streams of well-formed, misaligned, short-padded, empty-payload and short-length packets '
                        'under generated chunkings; (c) key derivation with a toy hash injected into Kex.compute_key; (d) '
                        'echo sessions over 1-byte / random / coalescing wires with re-keying; (e) OpenSSH client against an '
-                       'asyncssh server; (f) handshakes with an independent server that forces the shared secret K through its mpint shapes; (g) compressed sessions with the independent peer across re-keys; (h) group exchange with the independent peer and unusual (min, n, max) requests; (i) sessions whose two directions negotiate different ciphers / MAC modes. non-trivial = encrypted packet / more than one chunk / more than one digest block')
+                       'asyncssh server; (f) handshakes with an independent server that forces the shared secret K through its mpint shapes; (g) compressed sessions with the independent peer across re-keys; (h) group exchange with the independent peer and unusual (min, n, max) requests; (i) sessions whose two directions negotiate different ciphers / MAC modes; (j) AES-GCM packets against an RFC 5647 reference around the 2^64 wrap of the invocation counter. non-trivial = encrypted packet / more than one chunk / more than one digest block')
     ctx.cov['trusted_base'] += [
         'MiniSSH (harness/minissh.py, primitives from PyCA cryptography / hashlib only) as the independent RFC 4253 peer; '
         'its own self test incl. a cross check against the OpenSSH client is run by `python -m harness.minissh_selftest`',
@@ -722,6 +777,10 @@ def run(ctx):
     stage_compress(ctx)
     stage_gex(ctx)
     stage_asym(ctx)
+    try:
+        stage_gcm_iv(ctx)
+    except Exception as e:
+        ctx.broke('stage:gcm_iv', repr(e))
     stage_e2e(ctx)
     stage_openssh(ctx)
 
